@@ -302,13 +302,14 @@ pub proof fn lemma_map_batched<K, T, S: Store<T>>(m0: Map<K, S>, m1: Map<K, S>, 
 // assigns a captured local inside the closure, which Verus does not support. Summary: remove(id) is applied to every bucket, only a bucket
 // that is empty afterwards is dropped, and `removed` receives the route returned by one of these calls if any returned one.
 #[verifier::external_body]
-pub fn outl_retain_remove<T>(m: &mut HashMap<String, Sub<T>>, id: &str, removed: &mut Option<RouteRef<T>>)
-    requires map_wf(old(m)@), *old(removed) is None,
+pub fn outl_retain_remove<K, T>(m: &mut HashMap<K, Sub<T>>, id: &str, removed: &mut Option<RouteRef<T>>)
+    requires map_wf(old(m)@),
     ensures entries_removed(old(m)@, final(m)@, id@),
-        *final(removed) matches Some(x) ==> rid(*x) == id@ && map_holds(old(m)@, x),
-        *final(removed) is None ==> !map_holds_id(old(m)@, id@),
+        // `removed` is overwritten by every bucket that returns a route, and left alone otherwise
+        map_holds_id(old(m)@, id@) ==> (*final(removed) matches Some(x) && rid(*x) == id@ && map_holds(old(m)@, x)),
+        !map_holds_id(old(m)@, id@) ==> *final(removed) == *old(removed),
 {
-    /* verbatim: self.schemes.retain(|_, matcher| { if let Some(value) = matcher.remove(id) { removed = Some(value); } !matcher.is_empty() }); | self.static_hosts.retain(|_, matcher| { if let Some(value) = matcher.remove(id) { removed = Some(value); } !matcher.is_empty() }); */
+    /* verbatim: self.schemes.retain(|_, matcher| { if let Some(value) = matcher.remove(id) { removed = Some(value); } !matcher.is_empty() }); | self.static_hosts.retain(|_, matcher| { if let Some(value) = matcher.remove(id) { removed = Some(value); } !matcher.is_empty() }); | self.matchers.retain(|_, matcher| { if let Some(value) = matcher.remove(id) { removed = Some(value); } !matcher.is_empty() }); | self.methods.retain(|_, matcher| { if let Some(value) = matcher.remove(id) { removed = Some(value); } !matcher.is_empty() }); | self.exclude_methods.retain(|_, matcher| { if let Some(value) = matcher.remove(id) { removed = Some(value); } !matcher.is_empty() }); */
     unimplemented!()
 }
 
@@ -811,17 +812,6 @@ pub fn outl_ip_bucket_insert<T>(m: &mut HashMap<RouteIp, Sub<T>>, ip: &RouteIp, 
     /* verbatim: self.matchers .entry(ip.clone()) .or_insert_with(|| MethodMatcher::new(config.clone())) .insert(route.clone()); */
     unimplemented!()
 }
-// (2) the retain-with-captured-assignment statement of IpMatcher::remove (same shape as outl_retain_remove, RouteIp keys)
-#[verifier::external_body]
-pub fn outl_ip_retain_remove<T>(m: &mut HashMap<RouteIp, Sub<T>>, id: &str, removed: &mut Option<RouteRef<T>>)
-    requires map_wf(old(m)@), *old(removed) is None,
-    ensures entries_removed(old(m)@, final(m)@, id@),
-        *final(removed) matches Some(x) ==> rid(*x) == id@ && map_holds(old(m)@, x),
-        *final(removed) is None ==> !map_holds_id(old(m)@, id@),
-{
-    /* verbatim: self.matchers.retain(|_, matcher| { if let Some(value) = matcher.remove(id) { removed = Some(value); } !matcher.is_empty() }); */
-    unimplemented!()
-}
 //@@ rename MethodMatcher Sub
 //@@ item src/router/request_matcher/ip.rs :: struct IpMatcher
 impl<T> IpMatcher<T> {
@@ -983,7 +973,7 @@ impl<T> IpMatcher<T> {
     //@@ fn src/router/request_matcher/ip.rs :: impl <T>IpMatcher<T> / fn remove -> r
     //@| requires old(self).wf(),
     //@| ensures removed_rel(*old(self), *final(self), id@, r),
-    //@| outline `self.matchers.retain(|_, matcher| { if let Some(value) = matcher.remove(id) { removed = Some(value); } !matcher.is_empty() });` => `outl_ip_retain_remove(&mut self.matchers, id, &mut removed);`
+    //@| outline `self.matchers.retain(|_, matcher| { if let Some(value) = matcher.remove(id) { removed = Some(value); } !matcher.is_empty() });` => `outl_retain_remove(&mut self.matchers, id, &mut removed);`
     //@| entry broadcast use group_hash_axioms; broadcast use axiom_routeip_key_model;
     //@|     proof { lemma_ip_wf(*self); }
     //@| before `self.count -= 1;`#0: proof { assert(old(self).no_matcher.holds(removed.unwrap())); assert(old(self).sholds(removed.unwrap())); assert(old(self).holds(removed.unwrap())); }
@@ -1004,6 +994,241 @@ impl<T> IpMatcher<T> {
     //@| ensures r == (self.cnt() == 0),
 }
 //@@ unrename MethodMatcher
+
+// ================================================================ method layer (method list: one bucket per listed method; exclusion list: one bucket per list)
+// R8 outline (ASSUMED: Display for String is the identity): String::to_string through the blanket ToString impl has no Verus specification
+#[verifier::external_body] pub fn outl_string_to_string(s: &String) -> (r: String) ensures r@ == s@ { /* verbatim: method.to_string() */ s.to_string() }
+#[verifier::external_body] pub broadcast proof fn axiom_vecstring_key_model() ensures #[trigger] obeys_key_model::<Vec<String>>() {}
+pub uninterp spec fn rmethods<T>(r: Route<T>) -> Option<Seq<String>>;
+pub uninterp spec fn rexcl<T>(r: Route<T>) -> Option<bool>;
+pub open spec fn opt_methods(o: Option<&Vec<String>>) -> Option<Seq<String>> { match o { Some(v) => Some(v@), None => None } }
+impl<T> Route<T> {
+    #[verifier::external_body] pub fn methods(&self) -> (r: Option<&Vec<String>>) ensures opt_methods(r) == rmethods(*self) { unimplemented!() }
+    #[verifier::external_body] pub fn exclude_methods(&self) -> (r: Option<bool>) ensures r == rexcl(*self) { unimplemented!() }
+}
+// statement of C01 for the method trigger: a rule either lists the methods it applies to, or — when its exclusion flag is SET — the methods
+// it does not apply to
+pub open spec fn excluded<T>(x: RouteRef<T>) -> bool { rexcl(*x) == Some(true) }
+pub open spec fn distinct_methods(v: Seq<String>) -> bool { forall|i: int, j: int| 0 <= i < j < v.len() ==> (#[trigger] v[i])@ != (#[trigger] v[j])@ }
+pub open spec fn mlist_has(v: Seq<String>, m: Seq<char>) -> bool { exists|i: int| 0 <= i < v.len() && #[trigger] v[i]@ == m }
+pub open spec fn meth_kf<T>() -> spec_fn(String, RouteRef<T>) -> bool { |k: String, x: RouteRef<T>| !excluded(x) && (rmethods(*x) matches Some(v) && mlist_has(v, k@)) }
+pub open spec fn excl_kf<T>() -> spec_fn(Vec<String>, RouteRef<T>) -> bool { |k: Vec<String>, x: RouteRef<T>| excluded(x) && rmethods(*x) == Some(k@) && k@.len() > 0 }
+pub open spec fn meth_any_ok<T>(x: RouteRef<T>) -> bool { rmethods(*x) matches Some(v) ==> v.len() == 0 }
+// R8 outline, ASSUMED contract: `self.exclude_methods.entry(methods.clone()).or_insert_with(|| HeaderMatcher::new(config.clone())).insert(route.clone());`
+#[verifier::external_body]
+pub fn outl_excl_bucket_insert<T>(m: &mut HashMap<Vec<String>, Sub<T>>, methods: &Vec<String>, config: &Arc<RouterConfig>, route: RouteRef<T>)
+    requires map_wf(old(m)@), old(m)@.contains_key(*methods) ==> old(m)@[*methods].cnt() < usize::MAX && forall|x: RouteRef<T>| old(m)@[*methods].holds(x) ==> rid(*x) != rid(*route),
+    ensures final(m)@.contains_key(*methods), final(m)@ == old(m)@.insert(*methods, final(m)@[*methods]), final(m)@[*methods].wf(),
+        forall|x: RouteRef<T>| #![trigger final(m)@[*methods].holds(x)] final(m)@[*methods].holds(x) <==> (old(m)@.contains_key(*methods) && old(m)@[*methods].holds(x)) || x == route,
+        final(m)@[*methods].cnt() == (if old(m)@.contains_key(*methods) { old(m)@[*methods].cnt() } else { 0 }) + 1,
+{
+    /* verbatim: self.exclude_methods .entry(methods.clone()) .or_insert_with(|| HeaderMatcher::new(config.clone())) .insert(route.clone()); */
+    unimplemented!()
+}
+//@@ rename HeaderMatcher Sub
+//@@ item src/router/request_matcher/method.rs :: struct MethodMatcher
+impl<T> MethodMatcher<T> {
+    pub open spec fn sholds(&self, x: RouteRef<T>) -> bool { self.any_method.holds(x) || map_holds(self.methods@, x) || map_holds(self.exclude_methods@, x) }
+    pub open spec fn counted(&self) -> bool { exists|s: Set<RouteRef<T>>| #[trigger] s.len() <= self.count && forall|x: RouteRef<T>| s.contains(x) <==> self.sholds(x) }
+    pub open spec fn swf(&self) -> bool {
+        &&& self.any_method.wf() && map_wf(self.methods@) && map_wf(self.exclude_methods@)
+        &&& self.counted()
+        &&& forall|x: RouteRef<T>, y: RouteRef<T>| #[trigger] self.sholds(x) && #[trigger] self.sholds(y) && rid(*x) == rid(*y) ==> x == y
+        // bucket-key consistency (C01): inclusion buckets hold rules that list the method and are NOT exclusions; exclusion buckets hold rules whose
+        // exclusion flag is set, under their own list; "any" holds rules without (or with an empty) method list
+        &&& map_keyed(self.methods@, meth_kf::<T>()) && map_keyed(self.exclude_methods@, excl_kf::<T>())
+        &&& forall|x: RouteRef<T>| #[trigger] self.any_method.holds(x) ==> meth_any_ok(x)
+    }
+}
+impl<T> Store<T> for MethodMatcher<T> {
+    open spec fn holds(&self, x: RouteRef<T>) -> bool { self.sholds(x) }
+    open spec fn cnt(&self) -> nat { self.count as nat }
+    open spec fn wf(&self) -> bool { self.swf() }
+}
+pub proof fn lemma_meth_uniq_bridge<T>(n: MethodMatcher<T>)
+    requires uniq(n),
+    ensures forall|x: RouteRef<T>, y: RouteRef<T>| #[trigger] n.sholds(x) && #[trigger] n.sholds(y) && rid(*x) == rid(*y) ==> x == y,
+{
+    assert forall|x: RouteRef<T>, y: RouteRef<T>| #[trigger] n.sholds(x) && #[trigger] n.sholds(y) && rid(*x) == rid(*y) implies x == y by { assert(n.holds(x) && n.holds(y)); }
+}
+pub proof fn lemma_meth_wf<T>(s: MethodMatcher<T>)
+    requires s.wf(),
+    ensures uniq(s), s.cnt() == 0 ==> forall|x: RouteRef<T>| !s.holds(x), s.cnt() <= usize::MAX,
+{
+    let w = choose|w: Set<RouteRef<T>>| #[trigger] w.len() <= s.count && forall|x: RouteRef<T>| w.contains(x) <==> s.sholds(x);
+    if s.count == 0 { assert forall|x: RouteRef<T>| !s.holds(x) by { if s.sholds(x) { assert(w.contains(x)); assert(w.len() > 0) by { if w.len() == 0 { assert(w =~= Set::<RouteRef<T>>::empty()); } } } } }
+}
+pub proof fn lemma_meth_counted_insert<T>(o: MethodMatcher<T>, n: MethodMatcher<T>, rt: RouteRef<T>)
+    requires o.counted(), n.count == o.count + 1, forall|x: RouteRef<T>| #![trigger n.sholds(x)] n.sholds(x) <==> o.sholds(x) || x == rt,
+    ensures n.counted(),
+{
+    let w = choose|w: Set<RouteRef<T>>| #[trigger] w.len() <= o.count && forall|x: RouteRef<T>| w.contains(x) <==> o.sholds(x);
+    let w2 = w.insert(rt);
+    assert(w2.len() <= n.count && forall|x: RouteRef<T>| w2.contains(x) <==> n.sholds(x));
+}
+pub proof fn lemma_meth_counted_sub<T>(o: MethodMatcher<T>, n: MethodMatcher<T>, dec: bool)
+    requires o.counted(), forall|x: RouteRef<T>| #[trigger] n.sholds(x) ==> o.sholds(x),
+        !dec ==> n.count == o.count,
+        dec ==> n.count + 1 == o.count && exists|x0: RouteRef<T>| o.sholds(x0) && !n.sholds(x0),
+    ensures n.counted(),
+{
+    let w = choose|w: Set<RouteRef<T>>| #[trigger] w.len() <= o.count && forall|x: RouteRef<T>| w.contains(x) <==> o.sholds(x);
+    let w2 = w.filter(|x: RouteRef<T>| n.sholds(x));
+    w.lemma_len_filter(|x: RouteRef<T>| n.sholds(x));
+    assert forall|x: RouteRef<T>| w2.contains(x) <==> n.sholds(x) by {}
+    if dec {
+        let x0 = choose|x0: RouteRef<T>| o.sholds(x0) && !n.sholds(x0);
+        assert(w.contains(x0) && !w2.contains(x0));
+        assert(w2.subset_of(w.remove(x0)));
+        vstd::set_lib::lemma_len_subset(w2, w.remove(x0));
+    }
+    assert(w2.len() <= n.count);
+}
+pub proof fn lemma_meth_inserted<T>(o: MethodMatcher<T>, n: MethodMatcher<T>, rt: RouteRef<T>)
+    requires o.wf(), forall|x: RouteRef<T>| o.holds(x) ==> rid(*x) != rid(*rt), n.count == o.count + 1,
+        n.any_method.wf(), map_wf(n.methods@), map_wf(n.exclude_methods@), map_keyed(n.methods@, meth_kf::<T>()), map_keyed(n.exclude_methods@, excl_kf::<T>()),
+        forall|x: RouteRef<T>| #![trigger n.sholds(x)] n.sholds(x) <==> o.sholds(x) || x == rt,
+        forall|x: RouteRef<T>| #[trigger] n.any_method.holds(x) ==> meth_any_ok(x),
+    ensures inserted_rel(o, n, rt),
+{
+    lemma_meth_counted_insert(o, n, rt);
+    assert forall|x: RouteRef<T>| #![trigger n.holds(x)] #![trigger o.holds(x)] n.holds(x) <==> o.holds(x) || x == rt by {}
+    lemma_uniq_inserted(o, n, rt); lemma_meth_uniq_bridge(n);
+}
+
+pub proof fn lemma_meth_removed_any<T>(o: MethodMatcher<T>, n: MethodMatcher<T>, id: Seq<char>, x0: RouteRef<T>)
+    requires o.wf(), n.methods@ == o.methods@, n.exclude_methods@ == o.exclude_methods@, removed_rel(o.any_method, n.any_method, id, Some(x0)), n.count + 1 == o.count,
+    ensures removed_rel(o, n, id, Some(x0)),
+{
+    assert(o.holds(x0));
+    assert forall|y: RouteRef<T>| #![trigger n.holds(y)] #![trigger o.holds(y)] n.holds(y) <==> o.holds(y) && rid(*y) != id by { if o.holds(y) && rid(*y) == id { assert(y == x0); } }
+    lemma_uniq_subset(o, n); lemma_meth_uniq_bridge(n);
+    assert(o.sholds(x0) && !n.sholds(x0));
+    lemma_meth_counted_sub(o, n, true);
+    assert forall|x: RouteRef<T>| #[trigger] n.any_method.holds(x) implies meth_any_ok(x) by { assert(o.any_method.holds(x)); }
+}
+pub proof fn lemma_meth_removed<T>(o: MethodMatcher<T>, n: MethodMatcher<T>, id: Seq<char>, r: Option<RouteRef<T>>)
+    requires o.wf(), removed_rel(o.any_method, n.any_method, id, None::<RouteRef<T>>), entries_removed(o.methods@, n.methods@, id), entries_removed(o.exclude_methods@, n.exclude_methods@, id),
+        r matches Some(x) ==> rid(*x) == id && (map_holds(o.methods@, x) || map_holds(o.exclude_methods@, x)),
+        r is None ==> !map_holds_id(o.methods@, id) && !map_holds_id(o.exclude_methods@, id),
+        n.count + (if r is Some { 1int } else { 0int }) == o.count,
+    ensures removed_rel(o, n, id, r),
+{
+    lemma_sub_empty::<T>();
+    lemma_map_removed_holds(o.methods@, n.methods@, id, meth_kf::<T>());
+    lemma_map_removed_holds(o.exclude_methods@, n.exclude_methods@, id, excl_kf::<T>());
+    assert forall|y: RouteRef<T>| #![trigger n.holds(y)] #![trigger o.holds(y)] n.holds(y) <==> o.holds(y) && rid(*y) != id by {
+        if o.any_method.holds(y) { assert(holds_id(o.any_method, id) || rid(*y) != id); }
+    }
+    if r is Some { let x = r.unwrap(); assert(o.holds(x)); assert(o.sholds(x) && !n.sholds(x)); }
+    else {
+        assert forall|y: RouteRef<T>| #[trigger] o.holds(y) implies rid(*y) != id by {
+            if o.any_method.holds(y) { assert(holds_id(o.any_method, id) || rid(*y) != id); }
+            if map_holds(o.methods@, y) { let k = choose|k: String| o.methods@.contains_key(k) && #[trigger] o.methods@[k].holds(y); assert(map_holds_id(o.methods@, id) || rid(*y) != id); }
+            if map_holds(o.exclude_methods@, y) { let k = choose|k: Vec<String>| o.exclude_methods@.contains_key(k) && #[trigger] o.exclude_methods@[k].holds(y); assert(map_holds_id(o.exclude_methods@, id) || rid(*y) != id); }
+        }
+    }
+    lemma_uniq_subset(o, n); lemma_meth_uniq_bridge(n);
+    lemma_meth_counted_sub(o, n, r is Some);
+    assert forall|x: RouteRef<T>| #[trigger] n.any_method.holds(x) implies meth_any_ok(x) by { assert(o.any_method.holds(x)); }
+}
+pub proof fn lemma_meth_batched<T>(o: MethodMatcher<T>, n: MethodMatcher<T>, ids: Set<String>)
+    requires o.wf(), batched_rel(o.any_method, n.any_method, ids), entries_batched(o.methods@, n.methods@, ids), entries_batched(o.exclude_methods@, n.exclude_methods@, ids), n.count == o.count,
+    ensures batched_rel(o, n, ids),
+{
+    lemma_sub_empty::<T>();
+    lemma_map_batched(o.methods@, n.methods@, ids, meth_kf::<T>());
+    lemma_map_batched(o.exclude_methods@, n.exclude_methods@, ids, excl_kf::<T>());
+    assert forall|y: RouteRef<T>| #![trigger n.holds(y)] #![trigger o.holds(y)] n.holds(y) <==> o.holds(y) && !ids_has(ids, rid(*y)) by {}
+    lemma_uniq_subset(o, n); lemma_meth_uniq_bridge(n);
+    lemma_meth_counted_sub(o, n, false);
+    assert forall|x: RouteRef<T>| #[trigger] n.any_method.holds(x) implies meth_any_ok(x) by { assert(o.any_method.holds(x)); }
+}
+impl<T> MethodMatcher<T> {
+    //@@ fn src/router/request_matcher/method.rs :: impl <T>MethodMatcher<T> / fn new -> r
+    //@| ensures r.wf(), r.cnt() == 0, forall|x: RouteRef<T>| !r.holds(x),
+    //@| entry broadcast use group_hash_axioms; broadcast use axiom_string_key_model; broadcast use axiom_vecstring_key_model;
+    //@| exit proof { let w = Set::<RouteRef<T>>::empty(); assert(w.len() <= vf_ret.count && forall|x: RouteRef<T>| w.contains(x) <==> vf_ret.sholds(x)); }
+
+    // domain restrictions (stated): fewer than 2^64 insertions per bucket; the listed methods of a route are pairwise distinct
+    //@@ fn src/router/request_matcher/method.rs :: impl <T>MethodMatcher<T> / fn insert
+    //@| requires old(self).wf(), old(self).cnt() < usize::MAX, forall|x: RouteRef<T>| old(self).holds(x) ==> rid(*x) != rid(*route),
+    //@|     old(self).any_method.cnt() < usize::MAX, forall|k: String| old(self).methods@.contains_key(k) ==> (#[trigger] old(self).methods@[k]).cnt() < usize::MAX,
+    //@|     forall|k: Vec<String>| old(self).exclude_methods@.contains_key(k) ==> (#[trigger] old(self).exclude_methods@[k]).cnt() < usize::MAX,
+    //@|     rmethods(*route) matches Some(v) ==> distinct_methods(v),
+    //@| ensures inserted_rel(*old(self), *final(self), route),
+    //@| attr #[verifier::loop_isolation(false)]
+    //@| outline `self.exclude_methods .entry(methods.clone()) .or_insert_with(|| HeaderMatcher::new(config.clone())) .insert(route.clone());` => `outl_excl_bucket_insert(&mut self.exclude_methods, methods, &config, route.clone());`
+    //@| outline `method.to_string()` => `outl_string_to_string(method)`
+    //@| opt r6i:0
+    //@| entry broadcast use group_hash_axioms; broadcast use axiom_string_key_model; broadcast use axiom_vecstring_key_model; broadcast use axiom_borrow_string_upd; broadcast use axiom_arc_cloned;
+    //@|     let ghost m0 = self.methods@; let ghost e0 = self.exclude_methods@; let ghost rt = route; let ghost kf = meth_kf::<T>(); let ghost ekf = excl_kf::<T>();
+    //@|     proof { axiom_string_ext(); }
+    //@| before `return;`: proof {
+    //@|     let key = *methods;
+    //@|     if e0.contains_key(key) { assert forall|x: RouteRef<T>| e0[key].holds(x) implies rid(*x) != rid(*route) by { assert(map_holds(e0, x)); assert(old(self).sholds(x)); assert(old(self).holds(x)); } }
+    //@| }
+    //@| after `.insert(route.clone());`#0: proof {
+    //@|     let key = *methods;
+    //@|     // a rule filed under the exclusion lists must have its exclusion flag SET (C01, method trigger)
+    //@|     assert(excluded(rt));
+    //@|     assert(ekf(key, rt));
+    //@|     lemma_map_inserted(e0, self.exclude_methods@, key, rt, ekf);
+    //@|     assert forall|x: RouteRef<T>| #![trigger self.sholds(x)] self.sholds(x) <==> old(self).sholds(x) || x == rt by {}
+    //@|     lemma_meth_inserted(*old(self), *self, rt);
+    //@| }
+    //@| forlabel 0: it
+    //@| loopbefore 0: let ghost iv = methods@; proof { assert(rmethods(*rt) == Some(iv)); assert(!excluded(rt)); }
+    //@| loop 0: invariant iter_ref_ok(it.history@, it.index@, it.snapshot@.remaining(), iv), rmethods(*rt) == Some(iv), route == rt, !excluded(rt),
+    //@|     distinct_methods(iv),
+    //@|     self.any_method == old(self).any_method, self.exclude_methods@ == e0, self.count == old(self).count + 1, kf == meth_kf::<T>(), m0 == old(self).methods@, e0 == old(self).exclude_methods@,
+    //@|     old(self).wf(), forall|x: RouteRef<T>| old(self).holds(x) ==> rid(*x) != rid(*rt), forall|k: String| m0.contains_key(k) ==> (#[trigger] m0[k]).cnt() < usize::MAX,
+    //@|     map_wf(self.methods@), map_keyed(self.methods@, kf),
+    //@|     forall|x: RouteRef<T>| #![trigger map_holds(self.methods@, x)] map_holds(self.methods@, x) <==> map_holds(m0, x) || (it.index@ > 0 && x == rt),
+    //@|     forall|j: int| it.index@ <= j < iv.len() && self.methods@.contains_key(#[trigger] iv[j]) ==> m0.contains_key(iv[j]) && self.methods@[iv[j]] == m0[iv[j]],
+    //@| loophead 0: let ghost m1 = self.methods@; let ghost k = it.index@ as int;
+    //@|     proof { assert(*method == iv[k]);
+    //@|         if m1.contains_key(*method) { assert(m1[*method] == m0[*method]); assert forall|x: RouteRef<T>| m1[*method].holds(x) implies rid(*x) != rid(*route) by { assert(m0[*method].holds(x)); assert(map_holds(m0, x)); assert(old(self).sholds(x)); assert(old(self).holds(x)); } } }
+    //@| looptail 0: proof {
+    //@|     let key = iv[k];
+    //@|     assert(self.methods@ =~= m1.insert(key, self.methods@[key]));
+    //@|     assert(kf(key, rt)) by { assert(iv[k]@ == key@); assert(mlist_has(iv, key@)); }
+    //@|     lemma_map_inserted(m1, self.methods@, key, rt, kf);
+    //@|     assert forall|x: RouteRef<T>| #![trigger map_holds(self.methods@, x)] map_holds(self.methods@, x) <==> map_holds(m0, x) || x == rt by { assert(map_holds(self.methods@, x) <==> map_holds(m1, x) || x == rt); }
+    //@|     assert forall|j: int| k + 1 <= j < iv.len() && self.methods@.contains_key(#[trigger] iv[j]) implies m0.contains_key(iv[j]) && self.methods@[iv[j]] == m0[iv[j]] by { assert(iv[j]@ != key@); assert(iv[j] != key); assert(m1.contains_key(iv[j])); }
+    //@| }
+    //@| exit proof {
+    //@|     assert forall|x: RouteRef<T>| #![trigger self.sholds(x)] self.sholds(x) <==> old(self).sholds(x) || x == rt by {}
+    //@|     assert forall|x: RouteRef<T>| #[trigger] self.any_method.holds(x) implies meth_any_ok(x) by { if x != rt { assert(old(self).any_method.holds(x)); } }
+    //@|     lemma_meth_inserted(*old(self), *self, rt);
+    //@| }
+
+    //@@ fn src/router/request_matcher/method.rs :: impl <T>MethodMatcher<T> / fn remove -> r
+    //@| requires old(self).wf(),
+    //@| ensures removed_rel(*old(self), *final(self), id@, r),
+    //@| outline `self.methods.retain(|_, matcher| { if let Some(value) = matcher.remove(id) { removed = Some(value); } !matcher.is_empty() });` => `outl_retain_remove(&mut self.methods, id, &mut removed);`
+    //@| outline `self.exclude_methods.retain(|_, matcher| { if let Some(value) = matcher.remove(id) { removed = Some(value); } !matcher.is_empty() });` => `outl_retain_remove(&mut self.exclude_methods, id, &mut removed);`
+    //@| entry broadcast use group_hash_axioms; broadcast use axiom_string_key_model; broadcast use axiom_vecstring_key_model;
+    //@|     proof { lemma_meth_wf(*self); }
+    //@| before `self.count -= 1;`#0: proof { assert(old(self).any_method.holds(removed.unwrap())); assert(old(self).sholds(removed.unwrap())); assert(old(self).holds(removed.unwrap())); }
+    //@| before `return removed;`: proof { lemma_meth_removed_any(*old(self), *self, id@, removed.unwrap()); }
+    //@| before `if removed.is_some() {`#1: proof { if removed is Some { assert(old(self).sholds(removed.unwrap())); assert(old(self).holds(removed.unwrap())); } }
+    //@| exit proof { lemma_meth_removed(*old(self), *self, id@, removed); }
+
+    //@@ fn src/router/request_matcher/method.rs :: impl <T>MethodMatcher<T> / fn batch_remove -> r
+    //@| requires old(self).wf(),
+    //@| ensures batched_rel(*old(self), *final(self), ids@),
+    //@| closure `|_, matcher|`#0 => `|_k: &String, matcher: &mut Sub<T>| -> (b: bool) requires old(matcher).wf() ensures batched_rel(*old(matcher), *final(matcher), ids@), !b ==> final(matcher).cnt() == 0`
+    //@| closure `|_, matcher|`#1 => `|_k: &Vec<String>, matcher: &mut Sub<T>| -> (b: bool) requires old(matcher).wf() ensures batched_rel(*old(matcher), *final(matcher), ids@), !b ==> final(matcher).cnt() == 0`
+    //@| entry broadcast use group_hash_axioms; broadcast use axiom_string_key_model; broadcast use axiom_vecstring_key_model;
+    //@| exit proof { lemma_meth_batched(*old(self), *self, ids@); }
+
+    //@@ fn src/router/request_matcher/method.rs :: impl <T>MethodMatcher<T> / fn len -> r
+    //@| ensures r == self.cnt(),
+    //@@ fn src/router/request_matcher/method.rs :: impl <T>MethodMatcher<T> / fn is_empty -> r
+    //@| ensures r == (self.cnt() == 0),
+}
+//@@ unrename HeaderMatcher
 
 // ================================================================ Router (src/router/mod.rs)
 //@@ rename SchemeMatcher Sub
